@@ -475,9 +475,65 @@ Definition e2_spec_ok (c : e2case) : bool :=
          (length (e2_first c) <=? e2_calls c)%nat && (length (e2_arr2 c) <=? e2_calls2 c)%nat
   end.
 
+(** * History of one key of acmeClient.throttle with the package variables changed in between
+      (class key-history): phase i sets RateLimitEvents / RateLimitEventsWindow to (n_i, w_i) and
+      releases k_i callers of the real throttle for the SAME CA + account, each giving up after
+      [deadline].  Observed per phase: admitted callers; whether the limiter object registered
+      for the key is still the one of phase 1; its ring length, window and number of stamps. *)
+
+Record khphase := KH { kh_n : nat; kh_w : Z; kh_k : nat; kh_adm : nat; kh_same : bool;
+                       kh_len : nat; kh_win : Z; kh_stamps : nat }.
+Record khcase := KHC { khc_deadline : Z; khc_phases : list khphase }.
+
+Fixpoint burst_run (c : nat) (s : state) (t0 deadline : Z) : nat * state :=
+  match c with
+  | O => (O, s)
+  | S c' =>
+      match due s with
+      | Some u =>
+          if u <=? t0 + deadline then
+            match admit_one s (Z.max u t0) with
+            | Some s' => let (a, s'') := burst_run c' s' t0 deadline in (S a, s'')
+            | None => (O, s)
+            end
+          else (O, s)
+      | None => (O, s)
+      end
+  end.
+
+(** the code: the key's limiter is created in phase 1 with (n_1, w_1) and stays; later phases
+    only add waiters to it *)
+Fixpoint kh_replay (n1 : nat) (w1 : Z) (deadline : Z) (s : state) (total : nat) (l : list khphase) : bool :=
+  match l with
+  | [] => true
+  | p :: r =>
+      let (a, s') := burst_run (kh_k p) s (now s) deadline in
+      (a =? kh_adm p)%nat && kh_same p && (kh_len p =? n1)%nat && (kh_win p =? w1) &&
+      (kh_stamps p =? total + a)%nat && kh_replay n1 w1 deadline s' (total + a) r
+  end.
+
+Definition kh_model_ok (c : khcase) : bool :=
+  match khc_phases c with
+  | [] => true
+  | p :: _ =>
+      let t0 := Z.max (kh_w p) 0 + 1 in
+      kh_replay (kh_n p) (kh_w p) (khc_deadline c) (settle (init (kh_n p) (kh_w p) t0) t0) 0 (khc_phases c)
+  end.
+
+(** the property: the limiter registered for the key is never replaced while it holds stamps,
+    and — all phases lie well inside every window — the key never gets more admissions than the
+    largest limit that was ever configured *)
+Definition kh_spec_ok (c : khcase) : bool :=
+  let ps := khc_phases c in
+  let total := fold_right Nat.add O (map kh_adm ps) in
+  let maxn := fold_right Nat.max O (map kh_n ps) in
+  let span := khc_deadline c * Z.of_nat (length ps) + 5000000000 in
+  forallb kh_same ps &&
+  (if forallb (fun p => (0 <? kh_n p)%nat && (span <? kh_w p)) ps then (total <=? maxn)%nat else true).
+
 (** * Wire *)
 
-Inductive anycase := AHistory (c : tcase) | AFirst (c : ftcase) | AStress (c : stcase) | ARace (c : rdcase) | AE2E (c : e2case).
+Inductive anycase := AHistory (c : tcase) | AFirst (c : ftcase) | AStress (c : stcase) | ARace (c : rdcase) | AE2E (c : e2case) | AKeyHist (c : khcase).
 
 Definition get_zlist : dec (list Z) := get_list get_z.
 Definition get_op : dec op :=
@@ -498,13 +554,18 @@ Definition get_e2case : dec e2case :=
   (cfg <- get_z ;; n <- get_nat ;; w <- get_z ;; c <- get_nat ;; r <- get_nat ;; c2 <- get_nat ;;
    fa <- get_zlist ;; a <- get_zlist ;; a2 <- get_zlist ;; ra <- get_zlist ;; f <- get_nat ;;
    ret (E2 cfg n w c r c2 fa a a2 ra f))%Z.
+Definition get_khphase : dec khphase :=
+  (n <- get_nat ;; w <- get_z ;; k <- get_nat ;; a <- get_nat ;; sm <- get_bool ;; ln <- get_nat ;; wn <- get_z ;;
+   st <- get_nat ;; ret (KH n w k a sm ln wn st))%Z.
+Definition get_khcase : dec khcase := (d <- get_z ;; l <- get_list get_khphase ;; ret (KHC d l))%Z.
 Definition get_case : dec anycase :=
   (kind <- get_z ;;
    if kind =? 0 then (c <- get_tcase ;; ret (AHistory c))
    else if kind =? 1 then (c <- get_ftcase ;; ret (AFirst c))
    else if kind =? 2 then (c <- get_stcase ;; ret (AStress c))
    else if kind =? 3 then (c <- get_rdcase ;; ret (ARace c))
-   else (c <- get_e2case ;; ret (AE2E c)))%Z.
+   else if kind =? 4 then (c <- get_e2case ;; ret (AE2E c))
+   else (c <- get_khcase ;; ret (AKeyHist c)))%Z.
 
 Definition check_line (l : list Z) : Z :=
   match decode get_case l with
@@ -513,6 +574,7 @@ Definition check_line (l : list Z) : Z :=
   | Some (AStress c) => code (st_model_ok c) (st_spec_ok c)
   | Some (ARace c) => code (rd_ok c) (rd_ok c)
   | Some (AE2E c) => code (e2_model_ok c) (e2_spec_ok c)
+  | Some (AKeyHist c) => code (kh_model_ok c) (kh_spec_ok c)
   | None => code_decode_error
   end.
 
@@ -527,5 +589,6 @@ Definition explain_line (l : list Z) : list Z :=
                         | None => [-1] end
   | Some (ARace c) => [Z.of_nat (rd_races c); Z.of_nat (rd_died c)]
   | Some (AE2E c) => e2_model_times (e2_n c) (e2_w c) (e2_limited c)
+  | Some (AKeyHist c) => [if kh_model_ok c then 1 else 0]
   | None => []
   end.
